@@ -489,6 +489,11 @@ func main() {
 	facts = append(facts, fact{"has_rewrite_deferred_unlock", "op", has("value.go", "valueLog", "rewrite", "defer vlog.filesLock.Unlock()"), "value.go:valueLog.rewrite [defer vlog.filesLock.Unlock()]"})
 	facts = append(facts, fact{"ord_rewrite_unlock_delete", "op", ascending("value.go", "valueLog", "rewrite",
 		"vlog.filesLock.Lock()", "delete(vlog.filesMap, f.fid)", "deleteFileNow = true", "if deleteFileNow {", "vlog.deleteLogFile(f)"), "value.go:valueLog.rewrite [decide under filesLock, delete the file after releasing it]"})
+	// readers and compactions (Props/C01Levels.lean): point lookups and iterator creation walk the
+	// levels from 0 downwards (a range loop over s.levels); runCompactDef publishes on the next level
+	// before it deletes from this level (ord_compact_replace_delete above)
+	facts = append(facts, fact{"has_lcget_range_levels", "op", has("levels.go", "levelsController", "get", "for _, h := range s.levels {"), "levels.go:levelsController.get [for _, h := range s.levels]"})
+	facts = append(facts, fact{"has_appenditers_range_levels", "op", has("levels.go", "levelsController", "appendIterators", "for _, level := range s.levels {"), "levels.go:levelsController.appendIterators [for _, level := range s.levels]"})
 	// Txn.Commit / commitPrecheck
 	facts = append(facts, fact{"ord_commit_steps", "op", ascending("txn.go", "Txn", "Commit",
 		"len(txn.pendingWrites) == 0", "txn.commitPrecheck()", "txn.commitAndSend()"), "txn.go:Txn.Commit [order of steps]"})
